@@ -161,18 +161,30 @@ pub fn replay_case(case: &Value, tally: &mut Tally) {
     let obs0 = guarded_val(|| obj.observe());
     tally.check(hkey(&[key0, 0]), false, &|| ctx(-1, "state after constructor"), &case["init"]["obs"], &obs0);
     let mut hist_key = key0;
+    let mut last = &case["init"]["obs"];
     for (i, step) in case["steps"].as_array().unwrap().iter().enumerate() {
         let c = &step["c"];
         hist_key = hkey(&[hist_key, hstr(&c.to_string())]);
         let res = match guarded(|| obj.call(c)) { Ok(v) => v, Err(msg) => { tally.notes.push(json!(format!("panic: {}", msg))); panic_res() } };
+        last = &step["obs"];
         let ok = tally.check(hist_key, true, &|| ctx(i as i64, "result"), &step["res"], &res);
-        if !ok { return; }
+        if !ok { break; }
         let obs = guarded_val(|| obj.observe());
-        if !tally.check(hkey(&[hist_key, 1]), true, &|| ctx(i as i64, "state after call"), &step["obs"], &obs) { return; }
+        if !tally.check(hkey(&[hist_key, 1]), true, &|| ctx(i as i64, "state after call"), &step["obs"], &obs) { break; }
         let ones = step["obs"]["ones"].as_array().unwrap().len();
         let canon = guarded_val(|| obj.canon(&step["obs"]));
-        if !tally.check(hkey(&[hist_key, 2]), true, &|| ctx(i as i64, "history independence [== canonical, same bytes, count_ones]"), &json!([1, 1, ones]), &canon) { return; }
+        if !tally.check(hkey(&[hist_key, 2]), true, &|| ctx(i as i64, "history independence [== canonical, same bytes, count_ones]"), &json!([1, 1, ones]), &canon) { break; }
     }
+    // the vector's bits as a plain bitvector (RawVector::from / BitVector::from): counts and both set-bit iterators
+    // (also after a disagreement above: the bounds monitor watches what the real object does next)
+    let (blen, bones) = (last["len"].as_u64().unwrap() as usize, last["ones"].as_array().unwrap().len());
+    let as_bv = guarded_val(|| {
+        let raw = match &obj { AnyVec::Int(v) => RawVector::from(v.clone()), AnyVec::Raw(r) => r.clone() };
+        let bv = simple_sds::bit_vector::BitVector::from(raw);
+        use simple_sds::ops::{BitVec, Select, SelectZero};
+        json!([bv.len(), bv.count_ones(), bv.count_zeros(), bv.one_iter().count(), bv.zero_iter().count()])
+    });
+    tally.check(hkey(&[hist_key, 3]), true, &|| ctx(99, "as a plain bitvector: len, count_ones, count_zeros, items of one_iter and zero_iter"), &json!([blen, bones, blen - bones, bones, blen - bones]), &as_bv);
     if case["steps"].as_array().unwrap().len() >= 2 { tally.sample(json!({"init": init, "calls": case["steps"].as_array().unwrap().iter().map(|s| s["c"].clone()).collect::<Vec<Value>>()})); }
 }
 
